@@ -1,4 +1,5 @@
 import OhkamiModel.M.OpenApi
+import OhkamiModel.P.FangsLookup
 /-! # C15 — the generated OpenAPI document describes exactly the application
 
 Statements over ALL application trees (any nesting of mounts, any number of routes, methods, fangs of the four kinds at any level,
@@ -365,6 +366,19 @@ theorem documented_iff_registered (a : App) (p : Str) (m : Method) :
     exact ⟨f, hf, hp, hm⟩
   · rintro ⟨f, hf, hp, hm⟩
     exact ⟨_, List.mem_map.mpr ⟨f, hf, rfl⟩, hp, hm⟩
+
+/-! ### the per-route look-up of `gen_openapi_doc` -/
+
+/-- **Every registered (route, method) pair is found**: `gen_openapi_doc` looks each route up by searching the finalized router of the method with
+the route's own literal (`router.search_target(route)`), and takes the operation of the node it lands on.  On the router model shared with C01 / C04
+(`build`, `finalize` with fang scopes and compression, statics-first `search`): for every application tree whose static segments do not begin with `:`
+(such a segment is a param by `RouteSegment` parsing), every route of the flattened configuration, spelled with its params as `:name`, is answered by
+its own handler — no registered pair is skipped or documented with another route's operation. -/
+theorem route_literal_found (cfg : Ohkami.Fangs.App) (t : Ohkami.Fangs.BN) (r : Ohkami.Route) (h : Nat) (lit : List (List UInt8)) (F G : Nat)
+    (hc : Ohkami.Fangs.CfgOK cfg) (hb : Ohkami.Fangs.build cfg = some t) (hr : (r, h) ∈ Ohkami.Fangs.flatRoutes cfg)
+    (hl : Ohkami.Fangs.LitOf r lit) (hF : r.length ≤ F) (hG : r.length < G) :
+    (Ohkami.Fangs.search G (Ohkami.Fangs.finalize true F t false) lit).2 = some h :=
+  Ohkami.Fangs.literal_found cfg t r h lit F G hc hb hr hl hF hG
 
 /-! ### non-vacuity -/
 private def sig1 : Sig := { pathTys := [['i']], query := [⟨.query, ['q'], ['s'], true⟩], body := some ['j'], responses := [200] }
